@@ -341,6 +341,11 @@ def replay(rec, verbose=False):
         if verbose:
             print("  ladder case", rec["case"], "->", bad)
         return bad is not None
+    if rec.get("kind") == "mainclass":
+        bad = main_class_case(*rec["case"], verbose=verbose)
+        if verbose:
+            print("  class defined in __main__ (pickled by value), case (class body, root, protocol):", rec["case"], "->", bad)
+        return bad is not None
     if rec.get("kind") == "fresh":
         bad, _ = fresh_leg([tuple(tuple(o) for o in rec["history"])], rec["pool"], verbose=verbose)
         return bool(bad)
@@ -430,6 +435,121 @@ def fresh_leg(histories, spec, verbose=False):
                 if verbose:
                     print("  history", h, "protocol", proto, "fresh interpreter caching", flag, "->", sym)
     return bad, len(blobs) * 2
+
+
+
+# ---- classes defined in __main__ (pickled by value) ---------------------------------------------
+# A user's script defines its vertex / link subclasses in __main__; dill pickles such classes by
+# value.  Finite case list: shape of the class body x root x protocol.  Each case is one script run in
+# a fresh interpreter (dump), whose bytes are loaded in a second fresh interpreter that does NOT define
+# the classes (load); both under a wall-clock limit (non-termination is a verdict).
+
+MAIN_SHAPES = {
+    "plain-method": "class MyV(Vertex):\n    def hello(self):\n        return ('hello', self.i)\n",
+    "explicit-parent-init": "class MyV(Vertex):\n    def __init__(self, **kw):\n        Vertex.__init__(self, **kw)\n"
+                            "    def hello(self):\n        return ('hello', self.i)\n",
+    "zero-arg-super": "class MyV(Vertex):\n    def __init__(self, **kw):\n        super().__init__(**kw)\n"
+                      "    def hello(self):\n        return ('hello', self.i)\n",
+    "classmethod-and-property": "class MyV(Vertex):\n    count = 3\n    @classmethod\n    def make(cls, **kw):\n        return cls(**kw)\n"
+                                "    @property\n    def twice(self):\n        return 2 * self.i\n"
+                                "    def hello(self):\n        return ('hello', self.i)\n",
+    "subclass-of-subclass": "class Base(Vertex):\n    def hello(self):\n        return ('hello', self.i)\n"
+                            "class MyV(Base):\n    def __init__(self, **kw):\n        super().__init__(**kw)\n",
+    "edge-subclass-too": "class MyV(Vertex):\n    def hello(self):\n        return ('hello', self.i)\n"
+                         "class MyE(DirectedEdge):\n    def weight(self):\n        return 7\n",
+}
+
+_MAIN_DUMP = r"""
+import sys, base64, json
+from edgegraph.structure import Vertex, Universe, DirectedEdge
+from edgegraph.output import nrpickler
+%(classes)s
+E = globals().get("MyE", DirectedEdge)
+u = Universe()
+a = MyV(attributes={"i": 1}, universes=[u])
+b = MyV(attributes={"i": 2}, universes=[u])
+c = Vertex(attributes={"i": 3}, universes=[u])
+e1 = E(a, b); e2 = E(b, a); e3 = DirectedEdge(b, c)
+a.tag = "t"
+root = {"universe": u, "vertex": a}[%(root)r]
+import dill
+blob = %(pickler)s.dumps(root, protocol=%(proto)d)
+desc = {"uids": [x.uid for x in (a, b, c)], "classes": [type(x).__qualname__ for x in (a, b, c)],
+        "links": [[type(l).__qualname__, l.vertices[0].uid, l.vertices[1].uid] for l in a.links + b.links],
+        "members": [x.uid for x in u.vertices]}
+print(json.dumps({"blob": base64.b64encode(blob).decode(), "desc": desc}))
+"""
+
+_MAIN_LOAD = r"""
+import sys, base64, json, pickle
+import dill                                                          # (registers what by-value pickles refer to)
+from edgegraph.structure import Vertex, Universe, DirectedEdge      # what a loading script has at hand
+d = json.loads(sys.stdin.read())
+root = dill.loads(base64.b64decode(d["blob"]))      # by-value classes: dill's loader, for both picklers
+a = root.vertices[0] if %(root)r == "universe" else root
+u = a.universes[0]
+vs = u.vertices
+b, c = vs[1], vs[2]
+desc = {"uids": [x.uid for x in (a, b, c)], "classes": [type(x).__qualname__ for x in (a, b, c)],
+        "links": [[type(l).__qualname__, l.vertices[0].uid, l.vertices[1].uid] for l in a.links + b.links],
+        "members": [x.uid for x in vs]}
+ok = desc == d["desc"]
+beh = []
+beh.append(a.hello() == ("hello", 1) and b.hello() == ("hello", 2))
+beh.append(a.tag == "t" and type(a) is type(b) and type(a) is not type(c))
+n = type(a)(attributes={"i": 9})          # the re-created class can still be instantiated
+beh.append(n.hello() == ("hello", 9))
+if hasattr(type(a), "make"):
+    beh.append(type(a).make(attributes={"i": 4}).twice == 8 and type(a).count == 3)
+if type(a.links[0]).__qualname__ == "MyE":
+    beh.append(a.links[0].weight() == 7)
+print(json.dumps({"structure": ok, "behaviour": all(beh), "beh": beh}))
+"""
+
+MAIN_TIMEOUT = 30
+
+
+def main_class_case(shape, root, proto, verbose=False):
+    """
+    Returns a symptom or None.  Differential: a case in which the stock dill.dumps fails the same
+    judgement is outside what nrpickler can be asked for and is skipped.
+    """
+    bad = _main_class_run(shape, root, proto, "nrpickler", verbose)
+    if bad and _main_class_run(shape, root, proto, "dill", False):
+        return None
+    return bad
+
+
+def _main_class_run(shape, root, proto, pickler, verbose=False):
+    env = dict(os.environ)
+    dump_src = _MAIN_DUMP % dict(classes=MAIN_SHAPES[shape], root=root, proto=proto, pickler=pickler)
+    try:
+        p = subprocess.run([sys.executable, "-c", dump_src], capture_output=True, text=True, env=env,
+                           timeout=MAIN_TIMEOUT)
+    except subprocess.TimeoutExpired:
+        return "dumps-did-not-terminate"
+    if p.returncode != 0:
+        last = (p.stderr.strip().splitlines() or ["?"])[-1]
+        if verbose:
+            print(p.stderr[-1500:])
+        return "dumps-raised-" + last.split(":")[0].split(".")[-1]
+    payload = p.stdout.strip().splitlines()[-1]
+    try:
+        q = subprocess.run([sys.executable, "-c", _MAIN_LOAD % dict(root=root)], input=payload, capture_output=True,
+                           text=True, env=env, timeout=MAIN_TIMEOUT)
+    except subprocess.TimeoutExpired:
+        return "loads-did-not-terminate"
+    if q.returncode != 0:
+        last = (q.stderr.strip().splitlines() or ["?"])[-1]
+        if verbose:
+            print(q.stderr[-1500:])
+        return "loads-or-use-raised-" + last.split(":")[0].split(".")[-1]
+    r = json.loads(q.stdout.strip().splitlines()[-1])
+    if not r["structure"]:
+        return "copy-structure-differs"
+    if not r["behaviour"]:
+        return "copy-methods-or-class-unusable"
+    return None
 
 
 # ---- ladder ----------------------------------------------------------------------------
@@ -557,10 +677,24 @@ def run(tier, seed, log):
     lres = engine_e.explore(ladder, lc, seed=seed, log=log, label="size/depth ladder")
     for fp, (n, rec) in lres.viols.items():
         rep.add(fp, rec, n)
+    main_cases = [(sh, root, proto) for sh in MAIN_SHAPES for root in ("universe", "vertex")
+                  for proto in ((2, 4) if tier == "quick" else (0, 1, 2, 3, 4, 5))]
+
+    def mc(case):
+        bad = main_class_case(*case)
+        if bad:
+            return 1, 1, [(f"class-defined-in-__main__|body={case[0]}|root={case[1]}|{bad}",
+                           {"kind": "mainclass", "case": list(case), "history": []})], bad
+        return 1, 1, [], "ok"
+
+    mres = engine_e.explore(main_cases, mc, seed=seed, log=log, label="classes defined in __main__")
+    for fp, (n, rec) in mres.viols.items():
+        rep.add(fp, rec, n)
     rep.coverage = {
         "states": tot["states"], "transitions": tot["transitions"],
         "traces_validated_against_impl": tot["validated"],
-        "evaluations": tot["rts"] + tot["fresh"] + len(ladder),
+        "evaluations": tot["rts"] + tot["fresh"] + len(ladder) + len(main_cases),
+        "main_module_class_cases": len(main_cases),
         "distinct_nontrivial": tot["rts"],
         "round_trips_same_process": tot["rts"],
         "fresh_interpreter_loads": tot["fresh"],
@@ -577,5 +711,7 @@ def run(tier, seed, log):
     }
     rep.assumptions = ["'regardless of size or depth' is covered by a finite ladder (up to 2000 / 5000 vertices), "
                        "not for all sizes",
-                       "bounded pools for the exhaustive part"]
+                       "bounded pools for the exhaustive part",
+                       "classes pickled by value: a finite list of class bodies defined in __main__ of a fresh "
+                       "interpreter (dump) and loaded in another that does not define them, 30 s limit each"]
     return rep.finish(confirm=replay)
